@@ -536,7 +536,7 @@ def run(ctx):
     next_int_rule(ctx, repo)
     from sa.rules import C09, C08paging
     C09.tstates_rule(ctx, repo, repo.mod('snapshot'))
-    C08paging.python_sites(ctx, repo, rule='C10.5-latch', floor=8)
+    C08paging.python_sites(ctx, repo, rule='C10.5-latch', floor=7)
     from sa.rules import hwstate
     hwstate.run(ctx, repo, 'C10.6-hwstate')
     from sa.rules import intloop
